@@ -369,7 +369,10 @@ func (f *Field[T]) callMulHint(a, b *Element[T], isMulMod bool, customMod *Eleme
 	nbRemLimbs := nbLimbs
 	// we need to compute the number of limbs for the carries. It is maximum of
 	// the number of limbs of the product of a*b or k*p.
-	nbCarryLimbs := max(nbMultiplicationResLimbs(len(a.Limbs), len(b.Limbs)), nbMultiplicationResLimbs(int(nbQuoLimbs), int(nbLimbs))) - 1
+	// the remainder is always on nbLimbs limbs, so the right-hand side r + k*p
+	// has at least that many limbs even when the operands and the quotient
+	// are on fewer limbs.
+	nbCarryLimbs := max(nbMultiplicationResLimbs(len(a.Limbs), len(b.Limbs)), nbMultiplicationResLimbs(int(nbQuoLimbs), int(nbLimbs)), int(nbLimbs)) - 1
 	// we encode the computed parameters and widths to the hint function so can
 	// know how many limbs to expect.
 	modulusLimbs := f.Modulus().Limbs
@@ -416,7 +419,7 @@ func mulHint(field *big.Int, inputs, outputs []*big.Int) error {
 	ptr += nbALen
 	blimbs := inputs[ptr : ptr+nbBLen]
 
-	nbCarryLen := max(nbMultiplicationResLimbs(nbALen, nbBLen), nbMultiplicationResLimbs(nbQuoLen, nbLimbs)) - 1
+	nbCarryLen := max(nbMultiplicationResLimbs(nbALen, nbBLen), nbMultiplicationResLimbs(nbQuoLen, nbLimbs), nbLimbs) - 1
 	outptr := 0
 	quoLimbs := outputs[outptr : outptr+nbQuoLen]
 	outptr += nbQuoLen
@@ -743,7 +746,8 @@ func (f *Field[T]) callPolyMvHint(mv *multivariate[T], at []*Element[T]) (quo, r
 		nbQuoLimbs = (quoSize - modBits + nbBits) / nbBits
 	}
 	nbRemLimbs := nbLimbs
-	nbCarryLimbs := nbMultiplicationResLimbs(int(nbQuoLimbs), int(nbLimbs)) - 1
+	// the remainder is always on nbLimbs limbs
+	nbCarryLimbs := max(nbMultiplicationResLimbs(int(nbQuoLimbs), int(nbLimbs)), int(nbLimbs)) - 1
 
 	nbHintInputs := 7 + len(at)*len(mv.Terms) + len(mv.Coefficients) + len(f.Modulus().Limbs)
 	for i := range at {
